@@ -96,9 +96,9 @@ func pool(thoroughTier bool) []*val {
 			inst{"y2021dstStart", sec(1615705200)},                     // 2021-03-14 07:00:00 UTC: New York springs forward
 			inst{"y2021dstEndM1", sec(1636264799)},                     // 2021-11-07 05:59:59 UTC: last second of EDT
 			inst{"y2021dstEnd", sec(1636264800)},                       // 2021-11-07 06:00:00 UTC
-			inst{"y2021dstStartNoon", sec(1615737600)},               // 2021-03-14 16:00:00 UTC = 12:00 EDT on the day New York springs forward
-			inst{"y2021dstEndNoon", sec(1636304400)},                 // 2021-11-07 17:00:00 UTC = 12:00 EST on the day New York falls back
-			inst{"y2021dstStartEve", sec(1615694400)},                // 2021-03-14 04:00:00 UTC = 2021-03-13 23:00 EST
+			inst{"y2021dstStartNoon", sec(1615737600)},                 // 2021-03-14 16:00:00 UTC = 12:00 EDT on the day New York springs forward
+			inst{"y2021dstEndNoon", sec(1636304400)},                   // 2021-11-07 17:00:00 UTC = 12:00 EST on the day New York falls back
+			inst{"y2021dstStartEve", sec(1615694400)},                  // 2021-03-14 04:00:00 UTC = 2021-03-13 23:00 EST
 			inst{"leapday", sec(951825600 + 43200)},                    // 2000-02-29 12:00:00 UTC
 			inst{"y2000m1ns", new(big.Int).Sub(sec(946684800), bi(1))}, // 1999-12-31 23:59:59.999999999 UTC
 			inst{"max", bs("9223372036854775807")},                     // 2262-04-11, the last int64 nanosecond
